@@ -33,6 +33,8 @@ type loopInfo struct {
 	hdrVals map[string]Val
 	minPos  token.Pos
 	nblocks int
+	preInv  int
+	hdrReach string
 }
 
 type Frame struct {
